@@ -3,6 +3,7 @@ package props
 import (
 	"context"
 	"fmt"
+	"sync"
 
 	"github.com/jig/lisp"
 	"github.com/jig/lisp/env"
@@ -43,6 +44,83 @@ func c20MakeVariadic(tag int, entered *[8]int) func(xs ...types.MalType) (types.
 	return func(xs ...types.MalType) (types.MalType, error) {
 		entered[tag]++
 		return tag*1000 + len(xs), nil
+	}
+}
+
+// c20Concurrent: one binding called from several goroutines at once, each call with its own arguments and its own
+// context: every invocation sees exactly the arguments and the context of the call it belongs to.
+func c20Concurrent(c *fw.Ctx) {
+	type key struct{}
+	shapes := []struct {
+		name string
+		reg  func(e types.EnvType)
+		form func(g, k int) []types.MalType
+		want func(g, k int) int
+	}{
+		{"ctx-fixed-2", func(e types.EnvType) {
+			call.CallOverrideFN(e, "probe", func(ctx context.Context, a int, b string) (int, error) {
+				who, _ := ctx.Value(key{}).(int)
+				if fmt.Sprint(a) != b {
+					return -1, nil
+				}
+				return who*1000000 + a, nil
+			})
+		}, func(g, k int) []types.MalType { return []types.MalType{k, fmt.Sprint(k)} }, func(g, k int) int { return g*1000000 + k }},
+		{"ctx-variadic", func(e types.EnvType) {
+			call.CallOverrideFN(e, "probe", func(ctx context.Context, a int, rest ...int) (int, error) {
+				who, _ := ctx.Value(key{}).(int)
+				if len(rest) != 1 || rest[0] != a+1 {
+					return -1, nil
+				}
+				return who*1000000 + a, nil
+			})
+		}, func(g, k int) []types.MalType { return []types.MalType{k, k + 1} }, func(g, k int) int { return g*1000000 + k }},
+		{"fixed-2", func(e types.EnvType) {
+			call.CallOverrideFN(e, "probe", func(a int, b string) (int, error) {
+				if fmt.Sprint(a) != b {
+					return -1, nil
+				}
+				return a, nil
+			})
+		}, func(g, k int) []types.MalType { return []types.MalType{k, fmt.Sprint(k)} }, func(g, k int) int { return k }},
+	}
+	for si, sh := range shapes {
+		sh := sh
+		c.Case(fmt.Sprintf("concurrent-%d", si), "concurrent calls of one binding: "+sh.name, func() {
+			e := env.NewEnv()
+			if p, site, msg, st := fw.Guard(func() { sh.reg(e) }); p {
+				c.Violate(fw.Violation{Key: "registration-panic:concurrent", What: site + ": " + msg, Detail: st})
+				return
+			}
+			var wg sync.WaitGroup
+			var mu sync.Mutex
+			var bad string
+			for g := 1; g <= 4; g++ {
+				wg.Add(1)
+				go func(g int) {
+					defer wg.Done()
+					ctx := context.WithValue(context.Background(), key{}, g)
+					for k := 0; k < 20000; k++ {
+						form := types.List{Val: append([]types.MalType{types.Symbol{Val: "probe"}}, sh.form(g, k+g*100000)...)}
+						res, err := lisp.EVAL(ctx, form, e)
+						if err != nil || res != sh.want(g, k+g*100000) {
+							mu.Lock()
+							if bad == "" {
+								bad = fmt.Sprintf("goroutine %d called (probe %v) and got %v (err %v), expected %d: the function saw arguments or a context of another call", g, sh.form(g, k+g*100000), res, err, sh.want(g, k+g*100000))
+							}
+							mu.Unlock()
+							return
+						}
+					}
+				}(g)
+			}
+			wg.Wait()
+			c.Count("concurrent_call_batches", 1)
+			c.Count("concurrent_calls", 80000)
+			if bad != "" {
+				c.Violate(fw.Violation{Key: "arguments-of-another-call:" + sh.name, What: bad})
+			}
+		})
 	}
 }
 
